@@ -17,4 +17,5 @@ def p_kernels(ctx):
 
 
 def run(ctx):
-    return run_property(ctx, "proof", EXPLANATION, p_parts=[p_kernels], b_modules=[])
+    from ._callsites import p_callsites
+    return run_property(ctx, "proof", EXPLANATION, p_parts=[p_kernels, p_callsites], b_modules=[])
